@@ -176,11 +176,30 @@ pub fn show_face(f: &Face) -> String {
     )
 }
 
+/// DEC private mode number of a mode, by the NAME of the variant (not by its discriminant: a wrong
+/// discriminant must show)
 pub fn dec_mode_number(m: DecMode) -> usize {
-    m as usize
+    match m {
+        DecMode::VisibleCursor => 25,
+        DecMode::AutoWrap => 7,
+        DecMode::SixelScrolling => 80,
+        DecMode::MouseReport => 1000,
+        DecMode::MouseMotions => 1003,
+        DecMode::MouseSGR => 1006,
+        DecMode::AltScreen => 1049,
+        DecMode::SynchronizedOutput => 2026,
+        DecMode::BracketedPaste => 2004,
+    }
 }
+/// DECRPM status value of a status, by the NAME of the variant
 pub fn dec_status_number(s: DecModeStatus) -> usize {
-    s as usize
+    match s {
+        DecModeStatus::NotRecognized => 0,
+        DecModeStatus::Enabled => 1,
+        DecModeStatus::Disabled => 2,
+        DecModeStatus::PermanentlyEnabled => 3,
+        DecModeStatus::PermanentlyDisabled => 4,
+    }
 }
 
 /// Latin-1 string (every char below U+0100) as hex of its code points; other chars as `u<code>.`
